@@ -3,6 +3,8 @@
 package main
 
 import (
+	perpkeeper "github.com/elys-network/elys/x/perpetual/keeper"
+	levkeeper "github.com/elys-network/elys/x/leveragelp/keeper"
 	"encoding/json"
 	"fmt"
 	"math/rand"
@@ -47,8 +49,51 @@ func MakeGenesis(tmp string) *Genesis {
 }
 
 func newRawApp(db dbm.DB, tmp string, load bool) *elysapp.ElysApp {
+	return newRawAppLogger(log.NewNopLogger(), db, tmp, load)
+}
+
+func newRawAppLogger(lg log.Logger, db dbm.DB, tmp string, load bool) *elysapp.ElysApp {
 	opts := simtestutil.AppOptionsMap{flags.FlagHome: "", server.FlagInvCheckPeriod: 1}
-	return elysapp.NewElysApp(log.NewNopLogger(), db, nil, load, map[int64]bool{}, tmp, opts)
+	return elysapp.NewElysApp(lg, db, nil, load, map[int64]bool{}, tmp, opts)
+}
+
+// chainLogger is the (silent) logger handed to an application instance: the build-tag guarded hooks of /repo
+// (x/leveragelp, x/perpetual: verifPositionProcessed) are package-level, the context they receive carries the logger of
+// the application that runs them, and the logger leads back to the Chain driving that application.
+type chainLogger struct {
+	log.Logger
+	c *Chain
+}
+
+func (l *chainLogger) With(keyVals ...any) log.Logger { return l }
+func (l *chainLogger) Impl() any                      { return l }
+
+func init() {
+	hook := func(ctx sdk.Context, where string, owner string, id uint64) {
+		if cl, ok := ctx.Logger().(*chainLogger); ok && cl.c != nil {
+			cl.c.observeSub(ctx, where, owner, id)
+		}
+	}
+	levkeeper.VerifPositionProcessed = hook
+	perpkeeper.VerifPositionProcessed = hook
+}
+
+// observeSub records the state between two positions of a leveragelp sweep / close-positions message / perpetual
+// close-positions message (the linearization points of third-party closes, C10).
+func (c *Chain) observeSub(ctx sdk.Context, where string, owner string, id uint64) {
+	if c.NoObs || c.Rec == nil || ctx.IsCheckTx() || ctx.IsReCheckTx() {
+		return
+	}
+	o := &Obs{Kind: "Sub", OK: true, Tx: -1, Where: where, Owner: c.name(owner), ID: id}
+	if len(ctx.TxBytes()) > 0 {
+		i, found := c.txIndex[string(ctx.TxBytes())]
+		if !found {
+			return
+		}
+		o.Tx = i
+	}
+	o.State = c.Project(ctx)
+	c.obs = append(c.obs, o)
 }
 
 // TxSpec is one transaction to be placed in the next block.
@@ -89,10 +134,13 @@ type Chain struct {
 
 // Obs is one observation point inside a block.
 type Obs struct {
-	Kind  string // Begin, Ante, Tx, End
+	Kind  string // Begin, Ante, Tx, End, Sub
 	Tx    int
 	OK    bool
 	State map[string]any
+	Where string // Sub: call site
+	Owner string // Sub: position just processed ("" at the start of the loop)
+	ID    uint64
 }
 
 func (c *Chain) gov() string { return authtypes.NewModuleAddress(govtypes.ModuleName).String() }
@@ -121,7 +169,7 @@ func NewChain(gen *Genesis, tmp string, seed int64, rec *Recorder) *Chain {
 // buildApp constructs the real application and wraps the four block/tx level
 // handlers with observers that call the unchanged originals.
 func (c *Chain) buildApp() *elysapp.ElysApp {
-	a := newRawApp(c.DB, c.Tmp, false)
+	a := newRawAppLogger(&chainLogger{Logger: log.NewNopLogger(), c: c}, c.DB, c.Tmp, false)
 	realAnte := a.AnteHandler()
 	a.SetAnteHandler(func(ctx sdk.Context, tx sdk.Tx, sim bool) (sdk.Context, error) {
 		nctx, err := realAnte(ctx, tx, sim)
@@ -443,6 +491,7 @@ var interestingEvent = map[string]bool{
 
 func (c *Chain) emitBlock(specs []TxSpec, res *abci.ResponseFinalizeBlock, hash []byte) {
 	var last map[string]any
+	forceStage := ""
 	emitTx := func(i int, st map[string]any) {
 		r := res.TxResults[i]
 		observed := false
@@ -459,6 +508,9 @@ func (c *Chain) emitBlock(specs []TxSpec, res *abci.ResponseFinalizeBlock, hash 
 		ev.Stage = "msgs"
 		if !observed {
 			ev.Stage = "ante"
+		}
+		if forceStage != "" {
+			ev.Stage = forceStage
 		}
 		ev.Code = int(r.Code)
 		ev.Log = truncate(r.Log, 300)
@@ -480,8 +532,19 @@ func (c *Chain) emitBlock(specs []TxSpec, res *abci.ResponseFinalizeBlock, hash 
 			next++
 		}
 	}
-	for _, o := range c.obs {
+	keepSub := c.subGroupsToKeep(res)
+	for oi, o := range c.obs {
 		switch o.Kind {
+		case "Sub":
+			if !keepSub[oi] {
+				continue
+			}
+			if o.Tx >= 0 {
+				flush(o.Tx)
+			}
+			ev := newEvent("Sub", "")
+			ev.Args["where"], ev.Args["owner"], ev.Args["id"] = o.Where, o.Owner, fmt.Sprintf("%d", o.ID)
+			c.Rec.Line("Sub", c.Height, c.Time.Unix(), o.Tx, ev, o.State)
 		case "Begin":
 			c.Rec.Line("Begin", c.Height, c.Time.Unix(), -1, newEvent("BeginBlock", ""), o.State)
 			last = o.State
@@ -493,7 +556,17 @@ func (c *Chain) emitBlock(specs []TxSpec, res *abci.ResponseFinalizeBlock, hash 
 			last = o.State
 		case "Tx":
 			flush(o.Tx)
-			emitTx(o.Tx, o.State)
+			if o.OK && res.TxResults[o.Tx].Code != 0 {
+				// the messages and the post handler succeeded, yet the transaction failed afterwards (BaseApp charges the block gas
+				// meter between the post handler and the write of the message cache: "out of gas in location: block gas meter"):
+				// the cache the post handler looked at was discarded, the state is the one after the ante handler
+				// (not a failure of the messages themselves - stage "blockgas": "this message always succeeds" contracts do not apply)
+				forceStage = "blockgas"
+				emitTx(o.Tx, nil)
+				forceStage = ""
+			} else {
+				emitTx(o.Tx, o.State)
+			}
 			next = o.Tx + 1
 		case "PreEnd":
 			flush(len(specs))
@@ -510,6 +583,63 @@ func (c *Chain) emitBlock(specs []TxSpec, res *abci.ResponseFinalizeBlock, hash 
 	ev := newEvent("Commit", "")
 	ev.Args["hash"] = fmt.Sprintf("%x", hash)
 	c.Rec.Line("Commit", c.Height, c.Time.Unix(), -1, ev, last)
+}
+
+// positionsAltered: did the set of positions or any position's size / collateral / debt change between two projected states?
+func positionsAltered(a, b map[string]any) bool {
+	sig := func(st map[string]any, mod, tbl string, fields ...string) string {
+		m, _ := st[mod].(map[string]any)
+		t, _ := m[tbl].(map[string]any)
+		keys := make([]string, 0, len(t))
+		for k := range t {
+			keys = append(keys, k)
+		}
+		sort.Strings(keys)
+		var sb strings.Builder
+		for _, k := range keys {
+			p, _ := t[k].(map[string]any)
+			sb.WriteString(k)
+			for _, f := range fields {
+				sb.WriteString(fmt.Sprintf("|%v", p[f]))
+			}
+			sb.WriteString(";")
+		}
+		return sb.String()
+	}
+	return sig(a, "lev", "positions", "lp", "collateral", "liab") != sig(b, "lev", "positions", "lp", "collateral", "liab") ||
+		sig(a, "perp", "mtps", "collateral", "liab", "custody") != sig(b, "perp", "mtps", "collateral", "liab", "custody")
+}
+
+// subGroupsToKeep: the Sub observations of a step (the begin blocker, or one transaction) are written to the trace only if
+// the step altered a position at all and - for a transaction - was not rolled back; otherwise they carry no information.
+func (c *Chain) subGroupsToKeep(res *abci.ResponseFinalizeBlock) map[int]bool {
+	keep := map[int]bool{}
+	group := []int{}
+	closeGroup := func(end map[string]any, ok bool) {
+		if ok && len(group) > 0 && end != nil && positionsAltered(c.obs[group[0]].State, end) {
+			for _, i := range group {
+				keep[i] = true
+			}
+		}
+		group = group[:0]
+	}
+	for i, o := range c.obs {
+		switch o.Kind {
+		case "Sub":
+			if len(group) > 0 && c.obs[group[0]].Tx != o.Tx {
+				closeGroup(nil, false) // the step the earlier group belongs to ended without an observation (failed transaction)
+			}
+			group = append(group, i)
+		case "Begin":
+			closeGroup(o.State, true)
+		case "Tx":
+			ok := len(group) > 0 && c.obs[group[0]].Tx == o.Tx && o.OK && res.TxResults[o.Tx].Code == 0
+			closeGroup(o.State, ok)
+		case "Ante", "PreEnd", "End":
+			closeGroup(nil, false)
+		}
+	}
+	return keep
 }
 
 func (c *Chain) emitHalt(specs []TxSpec) {
@@ -588,7 +718,9 @@ func (r *Recorder) Line(kind string, h int64, t int64, tx int, ev *Event, st map
 	if st == nil {
 		st = map[string]any{}
 	}
-	r.prev = st
+	if kind != "Sub" { // a state in the middle of a step is nobody's "previous state"
+		r.prev = st
+	}
 	line := map[string]any{"i": r.n, "kind": kind, "h": h, "t": t, "tx": tx, "ev": ev, "state": st}
 	bz, err := json.Marshal(line)
 	if err != nil {
